@@ -23,3 +23,179 @@ def _genotype_posterior_as_array(posterior, labels, n_alleles=None):
             idx = genotype_alleles_as_index(alleles)
             probabilities[idx] = prob
     return probabilities
+
+
+class program:
+    def call_sample_genotypes(self, data):
+
+        """De novo haplotype assembly of each sample."""
+
+        sample_modes = dict()
+
+        sample_posteriors = dict()
+
+        for sample in data.samples:
+
+            try:
+
+                read_calls = data.read_calls[sample]
+
+                read_dists = data.read_dists[sample]
+
+                read_counts = data.read_counts[sample]
+
+                trace = DenovoMCMC(ploidy=data.sample_ploidy[sample], n_alleles=data.locus.count_alleles(), inbreeding=data.sample_inbreeding[sample], steps=self.mcmc_steps, chains=self.mcmc_chains, fix_homozygous=self.mcmc_fix_homozygous, recombination_step_probability=self.mcmc_recombination_step_probability, partial_dosage_step_probability=self.mcmc_partial_dosage_step_probability, dosage_step_probability=self.mcmc_dosage_step_probability, temperatures=self.sample_mcmc_temperatures[sample], random_seed=self.random_seed, llk_cache_threshold=self.mcmc_llk_cache_threshold).fit(reads=read_dists, read_counts=read_counts).burn(self.mcmc_burn)
+
+                posterior = trace.posterior()
+
+                sample_posteriors[sample] = posterior
+
+                genotype_support = posterior.mode_genotype_support()
+
+                genotype_support_prob = genotype_support.probabilities.sum()
+
+                data.sampledata[FORMAT.SPM][sample] = genotype_support_prob
+
+                data.sampledata[FORMAT.SQ][sample] = qual_of_prob(genotype_support_prob)
+
+                genotype, genotype_prob = genotype_support.mode_genotype()
+
+                sample_modes[sample] = genotype
+
+                data.sampledata[FORMAT.GQ][sample] = qual_of_prob(genotype_prob)
+
+                data.sampledata[FORMAT.GPM][sample] = genotype_prob
+
+                mec = np.sum(minimum_error_correction(read_calls, genotype))
+
+                mec_denom = np.sum(read_calls >= 0)
+
+                mecp = mec / mec_denom if mec_denom > 0 else np.nan
+
+                data.sampledata[FORMAT.MEC][sample] = mec
+
+                data.sampledata[FORMAT.MECP][sample] = mecp
+
+                incongruence = trace.replicate_incongruence(threshold=self.mcmc_incongruence_threshold)
+
+                data.sampledata[FORMAT.MCI][sample] = incongruence
+
+            except Exception as e:
+
+                path = data.sample_bams.get(sample)
+
+                message = SAMPLE_ASSEMBLY_ERROR.format(sample=sample, bam=path)
+
+                raise SampleAssemblyError(message) from e
+
+        haplotypes, ref_called = call_posterior_haplotypes(list(sample_posteriors.values()), threshold=self.haplotype_posterior_threshold)
+
+        haplotype_labels = {h.tobytes(): i for i, h in enumerate(haplotypes)}
+
+        data.infodata[INFO.REFMASKED] = not ref_called
+
+        if not ref_called:
+
+            haplotype_labels.pop(haplotypes[0].tobytes())
+
+            if len(haplotypes) == 1:
+
+                data.columndata[COLUMN.FILTER].append(vcf.filters.NOA.id)
+
+        if len(haplotypes) > 1:
+
+            alts = data.locus.format_haplotypes(haplotypes[1:])
+
+        else:
+
+            alts = []
+
+        data.columndata[COLUMN.REF] = data.locus.sequence
+
+        data.columndata[COLUMN.ALT] = alts
+
+        for sample in data.samples:
+
+            try:
+
+                alleles = _genotype_as_alleles(sample_modes[sample], haplotype_labels)
+
+                data.sampledata[FORMAT.GT][sample] = alleles
+
+                if self.require_AFP():
+
+                    frequencies = np.zeros(len(haplotypes))
+
+                    occurrences = np.zeros(len(haplotypes))
+
+                    haps, freqs, occur = sample_posteriors[sample].allele_frequencies()
+
+                    idx = mset.categorize(haplotypes, haps)
+
+                    frequencies[idx >= 0] = freqs[idx[idx >= 0]]
+
+                    occurrences[idx >= 0] = occur[idx[idx >= 0]]
+
+                    data.sampledata[FORMAT.AFP][sample] = frequencies
+
+                    data.sampledata[FORMAT.AOP][sample] = occurrences
+
+                    data.sampledata[FORMAT.ACP][sample] = frequencies * data.sample_ploidy[sample]
+
+                if FORMAT.GP in data.formatfields:
+
+                    probabilities = _genotype_posterior_as_array(sample_posteriors[sample], haplotype_labels, n_alleles=len(haplotypes))
+
+                    data.sampledata[FORMAT.GP][sample] = probabilities
+
+                if FORMAT.GL in data.formatfields:
+
+                    read_dists = data.read_dists[sample]
+
+                    read_counts = data.read_counts[sample]
+
+                    llks = genotype_likelihoods(reads=read_dists, read_counts=read_counts, ploidy=data.sample_ploidy[sample], haplotypes=haplotypes)
+
+                    data.sampledata[FORMAT.GL][sample] = natural_log_to_log10(llks)
+
+            except Exception as e:
+
+                path = data.sample_bams.get(sample)
+
+                message = SAMPLE_ASSEMBLY_ERROR.format(sample=sample, bam=path)
+
+                raise SampleAssemblyError(message) from e
+
+        return data
+
+
+
+    def loci(self):
+
+        if self.bed is None and self.region is None:
+
+            raise ValueError('No region or targets bedfile is specified.')
+
+        elif self.bed is not None:
+
+            bed = read_bed4(self.bed)
+
+            for b in bed:
+
+                yield b.set_sequence(self.ref).set_variants(self.vcf)
+
+        else:
+
+            locus = Locus.from_region_string(self.region, self.region_id)
+
+            yield locus.set_sequence(self.ref).set_variants(self.vcf)
+
+
+
+    def header_contigs(self):
+
+        with pysam.Fastafile(self.ref) as fasta:
+
+            contigs = [vcf.headermeta.ContigHeader(c, l) for c, l in zip(fasta.references, fasta.lengths)]
+
+        return contigs
